@@ -8,7 +8,7 @@ from contracts.graph import G, M, N, bijector_class, bijector_instance, dist_fn_
 ENTRY = ("instance", "class_args", "default", "auto", "deprecated_instance", "deprecated_default")
 
 
-def setup(ip):
+def setup(ip, observed=False):
     install_graph_models(ip)
     install_tfp_models(ip)
     g = G(ip)
@@ -16,7 +16,7 @@ def setup(ip):
     s = g.var("s")
     d = ip.call(g.Dist, [dist_fn_tfp("D")], {"rate": p})
     ip.setattr(d, "per_obs", False)
-    x = g.var("x", dist=d, parameter=True)
+    x = g.var("x", dist=d, parameter=not observed, observed=observed)  # (observed: a variable flagged observed - the flag stays where it is, the distribution moves all the same)
     ip.setattr(x, "role", "my_role")
     return g, p, s, d, x
 
@@ -55,21 +55,21 @@ def do_transform(ip, g, entry, x, s, copy=False):
     return t, ip.call(method(ip, gb, "build_model"), [], dict(ck)), tag
 
 
-def entry_unit(entry, copy=False):
+def entry_unit(entry, copy=False, observed=False):
     fns = [f"{N}::Var.transform", f"{N}::_transform_var_with_bijector_instance", f"{N}::_transform_var_with_bijector_class", f"{N}::Var.value_node.fset",
            f"{N}::Var.dist_node.fset", f"{N}::Var.parameter.fset", f"{M}::GraphBuilder.build_model", f"{M}::GraphBuilder.transform", f"{M}::_transform_back"]
 
-    @unit(f"C14.{entry}" + (".copied_graph" if copy else ""), "C14", fns + ([f"{M}::Model.__init__"] if copy else []), assumptions=(
+    @unit(f"C14.{entry}" + (".copied_graph" if copy else "") + (".observed_variable" if observed else ""), "C14", fns + ([f"{M}::Model.__init__"] if copy else []), assumptions=(
           ["the model is built from a DEEP COPY of the graph (build_model(copy=True), as LieselInterface / GooseModel do); A-PY: deepcopy shares function objects, "
            "so whatever a function captured in its closure still refers to the ORIGINAL graph"] if copy else []) + ["A-TFP: Invert swaps forward/inverse and the log-det-Jacobians; TransformedDistribution(d,b).log_prob(y) = d.log_prob(b^-1(y)) + ildj_b(y); "
                                                     "b(b^-1(v)) = v (ground instance)", "graph: x ~ D(rate=p), parameter; bijector argument s a model variable"])
-    def u(ip, entry=entry, copy=copy):
+    def u(ip, entry=entry, copy=copy, observed=observed):
         """after the transformation (and after re-assigning every input): the new variable is strong and unconstrained with initial value
         b^-1(v); the original variable is b(new variable) (value unchanged initially), its log-density is gone (no distribution of its own);
         the new variable's log-density at t is the original log-density at b(t) plus log|det db/dt| with the CURRENT bijector parameters;
         the parameter flag moved, observed / role are untouched, per_obs and the distribution's inputs are kept."""
         c = ip.ctx
-        g, p, s, d, x = setup(ip)
+        g, p, s, d, x = setup(ip, observed)
         t, model, (btag, bparams) = do_transform(ip, g, entry, x, s, copy)
         if copy:  # the relations are stated for the variables OF THE MODEL (the copies); the user's graph keeps its own values
             t, x = model.f["_vars"].get("x_transformed"), model.f["_vars"]["x"]
@@ -86,8 +86,8 @@ def entry_unit(entry, copy=False):
         c.oblige("initial_value_is_inverse_image", U_(ip.getattr(t, "value")) == t0)
         c.assume(fwd(vals, t0) == vals["x"])  # A-TFP: b(b^-1(v)) = v
         c.oblige("original_value_unchanged", U_(ip.getattr(x, "value")) == vals["x"])
-        c.oblige("parameter_flag_moved", ip.getattr(t, "parameter") is True and ip.getattr(x, "parameter") is False)
-        c.oblige("observed_and_role_untouched", ip.getattr(x, "observed") is False and ip.getattr(x, "role") == "my_role")
+        c.oblige("parameter_flag_moved", ip.getattr(t, "parameter") is (not observed) and ip.getattr(x, "parameter") is False)
+        c.oblige("observed_and_role_untouched", ip.getattr(x, "observed") is observed and ip.getattr(x, "role") == "my_role")
         c.oblige("original_has_no_distribution", ip.getattr(x, "has_dist") is False and ip.getattr(x, "dist_node") is None)
         c.oblige("original_is_weak", ip.getattr(x, "weak") is True)
         tdist = ip.getattr(t, "dist_node")
@@ -113,6 +113,9 @@ for _e in ENTRY:
     entry_unit(_e)
     entry_unit(_e, copy=True)
 entry_unit("auto_deep")
+for _e in ("instance", "default"):
+    if _e in ENTRY:
+        entry_unit(_e, observed=True)
 
 
 def chained_unit(first):
